@@ -31,7 +31,7 @@ def named_fn(arg, f, hook=None, tag=None):
 
 
 GRAPHS = ["lin_s", "lin_d_s", "gmrf_d_s", "lmrf_d", "two_lik", "nonlin", "xz_s", "laplace_b", "mean_m", "cmrf_d",
-          "lognormal"]   # ("reg_s" is buildable but RegularizedGaussian has no log-density: not a C01/C11 graph)
+          "lognormal", "lognormal_cov_s", "lin_sqrtprecF"]   # ("reg_s" is buildable but RegularizedGaussian has no log-density: not a C01/C11 graph)
 
 
 def build(rec, hook=None):
@@ -145,6 +145,24 @@ def build(rec, hook=None):
         y = Gaussian(M(x), cov=inv("s", "y.cov"), name="y")
         dens = [y, x, s]
         vals = {"y": ydata, "x": np.exp(xval * 0.3), "s": pos()}
+        out["models"]["A"] = M
+    elif g == "lognormal_cov_s":
+        s = Gamma(2.0, 1.0, name="s")
+        x = Lognormal(np.zeros(n), named_fn("s", lambda v: v * np.eye(n), hook, "x.cov"), name="x")
+        M = LinearModel(A)
+        y = Gaussian(M(x), 0.4, name="y")
+        dens = [y, x, s]
+        vals = {"y": ydata, "x": np.exp(xval * 0.3), "s": pos()}
+        out["models"]["A"] = M
+    elif g == "lin_sqrtprecF":
+        s = Gamma(1.0, 0.1, name="s")
+        Bq = rs.randn(n, n) * 0.3
+        R = np.asfortranarray(np.eye(n) + 0.5 * (Bq + Bq.T))        # dense, non-triangular, column-major square root
+        x = Gaussian(np.zeros(n), sqrtprec=R, name="x")
+        M = LinearModel(A)
+        y = Gaussian(M(x), cov=inv("s", "y.cov"), name="y")
+        dens = [y, x, s]
+        vals = {"y": ydata, "x": xval, "s": pos()}
         out["models"]["A"] = M
     else:
         raise ValueError(g)
